@@ -19,8 +19,17 @@ META = {
         'sheet sit in a try whose broad handler registers a #REF! cell and '
         'continues, unparsable ids register a #REF! reference, and missing '
         'links map to members of the error table; (plain) substituted values '
-        'are ordinary error singletons.'),
-    'not_decided': 'Locality of the damage (values of unrelated cells).',
+        'are ordinary error singletons; (lookup) Function.compile looks the '
+        'name up as written (no prefix stripping); (local) Cell.compile '
+        'discards the parsed expression only after compiling it, so no path '
+        'turns a whole formula into a constant because of one item in it; '
+        '(cachekey) caches kept by the loader are keyed by everything the '
+        'cached value depends on, so one failed lookup is not replayed for '
+        'unrelated references; (carry) in the completion work-list no error '
+        'placeholder is registered under a condition on a container that the '
+        'loop fills while processing other nodes.'),
+    'not_decided': 'Values of unrelated cells (locality beyond these '
+                   'structural conditions).',
     'trusted_base': ['CPython ast', 'schedula: a dispatcher built with a '
                      'raises predicate wraps other node exceptions in '
                      'DispatcherError with .ex'],
@@ -315,6 +324,92 @@ def rule_local(ctx):
     return rr
 
 
+def rule_carry(ctx):
+    """Locality inside the completion work-list: the decision to replace a node
+    by an error placeholder is taken from what happened to *that* node in this
+    iteration (an exception just caught, a lookup that just came back empty),
+    never from state the loop carries over from other nodes."""
+    rr = RuleResult('C14', 'C14.carry', 'DEP',
+                    'an error placeholder is never decided by state carried '
+                    'over from other nodes', floor=1)
+    p = ctx.project
+    f = p.func('formulas/excel/__init__.py', 'ExcelModel.complete')
+    loops = [n for n in f.node.body if isinstance(n, ast.While)]
+    if len(loops) != 1:
+        raise AnalysisError('complete: expected one while loop')
+    lp = loops[0]
+    mut = {'add', 'append', 'extend', 'update', 'setdefault', 'insert'}
+    # containers created before the loop and written inside it
+    before = {t.id for t, v, st in assign_pairs(f)
+              if isinstance(t, ast.Name) and st.lineno < lp.lineno}
+    carried = {}
+    for n in ast.walk(lp):
+        if isinstance(n, ast.Call) and isinstance(n.func, ast.Attribute) and \
+                n.func.attr in mut and isinstance(n.func.value, ast.Name) and \
+                n.func.value.id in before:
+            carried.setdefault(n.func.value.id, n)
+        if isinstance(n, ast.Assign):
+            for t in n.targets:
+                if isinstance(t, ast.Subscript) and isinstance(
+                        t.value, ast.Name) and t.value.id in before:
+                    carried.setdefault(t.value.id, n)
+    # the work-list itself and the done-set are the loop's own bookkeeping
+    wl = {x.id for x in ast.walk(lp.test) if isinstance(x, ast.Name)}
+    # placeholder sites: Cell/Ref(<node>, '=#REF!' / error constant)
+    sites = []
+
+    def walk(stmts, guards):
+        for st in stmts:
+            if isinstance(st, ast.If):
+                walk(st.body, guards + [st.test])
+                walk(st.orelse, guards + [st.test])
+                continue
+            if isinstance(st, ast.Try):
+                walk(st.body, guards)
+                for h in st.handlers:
+                    walk(h.body, guards)
+                walk(st.orelse, guards)
+                walk(st.finalbody, guards)
+                continue
+            if isinstance(st, (ast.For, ast.While, ast.With)):
+                walk(st.body, guards)
+                continue
+            for c in ast.walk(st):
+                if isinstance(c, ast.Call) and len(c.args) >= 2 and isinstance(
+                        c.args[1], ast.Constant) and isinstance(
+                        c.args[1].value, str) and c.args[1].value.startswith(
+                        '=#'):
+                    sites.append((c, list(guards)))
+
+    walk(lp.body, [])
+    if not sites:
+        rr.instances = 1
+        rr.ok('complete() registers no error placeholder inside the loop',
+              f.module.rel, nontrivial=False)
+    for c, guards in sites:
+        rr.instances += 1
+        names = {x.id for g in guards for x in ast.walk(g)
+                 if isinstance(x, ast.Name)}
+        bad = sorted((names & set(carried)) - wl)
+        # the done-set guard is a skip (`continue`), it never encloses a site
+        if bad:
+            rr.fail(key_of(f, 'placeholder decided by carried state `%s`' %
+                           bad[0]),
+                    'complete() registers the placeholder `%s` under a '
+                    'condition on `%s`, a container filled while *other* '
+                    'nodes were processed (`%s`): the failure of one node '
+                    'decides the value of another - e.g. one missing sheet '
+                    'turns every later reference into the same workbook into '
+                    '#REF!' % (norm_src(c)[:40], bad[0],
+                               norm_src(carried[bad[0]])[:40]),
+                    file=f.module.rel, function=f.qualname, line=c.lineno)
+        else:
+            rr.ok('placeholder `%s` (line %d) is decided by what happened to '
+                  'this node' % (norm_src(c)[:40], c.lineno),
+                  '%s:%d' % (f.module.rel, c.lineno))
+    return rr
+
+
 def _cachekey(ctx):
     """A per-run cache in the completion work-list must be keyed by everything
     its value depends on, the model state included: a cached context of a
@@ -333,4 +428,4 @@ def run(ctx):
     for o in t.obligations:
         o.rule = 'C14.table'
     return [rule_name(ctx), t, rule_lookup(ctx), rule_ref(ctx),
-            rule_plain(ctx), rule_local(ctx), _cachekey(ctx)]
+            rule_plain(ctx), rule_local(ctx), _cachekey(ctx), rule_carry(ctx)]
